@@ -1,6 +1,6 @@
 (* C04 -- the theorems about all histories, assembled from ProofsTable (process table,
    pids, pid_exists), ProofsLoop / ProofsIter (generators, cache) and ProofsText. *)
-From PV Require Import C04.Spec C04.ProofsTable C04.ProofsLoop C04.ProofsIter.
+From PV Require Import C04.Spec C04.ProofsTable C04.ProofsLoop C04.ProofsIter C04.ProofsStale C04.ProofsExact.
 From PV Require Export C04.ProofsText.
 
 (* ---------------------------------------------------------------- pids / pid_exists over histories *)
@@ -168,11 +168,12 @@ Theorem finish_installs valid h e g :
   let gh' := snd (fst r) g in
   let cache' := pmap (fst (fst r)) in
   gh_done (snd sg g) = false -> gh_done gh' = true -> gh_started gh' = true ->
-  snd r <> OOom -> tbl (fst sg) <> [] ->
+  snd r <> OOom -> (tbl (fst sg) <> [] \/ snd r = OStop) ->
   (forall p o, dget p cache' = Some o ->
      In p (gh_list gh') /\
      ((dget p (gh_cache gh') = Some o /\ ~ In p (gh_marked gh')) \/ (gh_heap0 gh' <= o)%nat)) /\
-  (forall p o i, In (p, o, i) (gh_yields gh') -> dget p cache' = Some o).
+  (forall p o i, In (p, o, i) (gh_yields gh') -> dget p cache' = Some o) /\
+  (forall p, In p (gh_marked gh') -> (exists o, dget p (gh_cache gh') = Some o) -> dget p cache' = None).
 Proof.
   intros sg r gh' cache' Hd Hd' Hst' Hoom Hne.
   pose proof (Inv_irun valid h) as HI. fold sg in HI. destruct sg as [s G] eqn:Esg.
@@ -182,7 +183,7 @@ Proof.
   assert (HF : Jfin valid (frame_of gh') cache' (gh_yields gh')).
   { subst gh' cache'. rewrite E1 in *. cbn [fst snd] in *.
     destruct (done_flip s e _ G g Hd Hd') as [[He|He] Hl]; subst e.
-    - rewrite E2 in Hoom. exact (proj1 (proj2 (proj2 (next_inv valid s G g HI Hl))) Hd Hd' Hoom Hne).
+    - rewrite E2 in Hoom, Hne. exact (proj1 (proj2 (proj2 (next_inv valid s G g HI Hl))) Hd Hd' Hoom Hne).
     - cbn [gupd] in *. rewrite Hl in *. rewrite Hd in *. rewrite gset_same in *.
       cbn [gh_finish gh_started gh_yields frame_of gh_attrs gh_list gh_cache gh_marked gh_heap0] in *.
       pose proof (HI g) as Hg. cbn [fst snd] in Hg. cbn [step]. rewrite Hl.
@@ -190,9 +191,10 @@ Proof.
       + destruct Hg as [H1 _]. congruence.
       + destruct Hg as [_ [_ [_ HJ]]]. cbn [fst mk pmap]. exact (J_Jfin _ _ _ _ _ _ _ _ HJ).
       + destruct Hg as [H1 _]. congruence. }
-  split.
+  split; [|split].
   - intros p o Hg. exact (f_pm _ _ _ _ HF p o Hg).
   - intros p o i Hin. exact (f_ypm _ _ _ _ HF (p, o, i) Hin).
+  - intros p Hm Hc. exact (proj1 (f_mc _ _ _ _ HF p Hm Hc)).
 Qed.
 
 Theorem cache_clear_empties valid s : pmap (fst (step valid s CacheClear)) = [].
@@ -309,3 +311,385 @@ Example finish_ex :
   gh_done (snd sg 0%nat) = false /\ gh_done (snd (fst r) 0%nat) = true /\ gh_started (snd (fst r) 0%nat) = true
   /\ snd r = OStop /\ tbl (fst sg) <> [].
 Proof. vm_compute. repeat split; discriminate. Qed.
+
+(* ================================================================================ *)
+(* (2) exactly which object a yield carries *)
+
+(* at the next() that yields: the cached object iff the PID was cached (and then it was not marked) and that
+   object does not carry the reused flag; otherwise an object made in this very next() *)
+Theorem yield_exact valid h g p o i :
+  let s := fst (irun valid h) in
+  let G := snd (irun valid h) in
+  snd (step valid s (IterNext g)) = OYield p o i ->
+  let gh1 := if gh_started (G g) then G g else gh_enter s (G g) in
+  match dget p (gh_cache gh1) with
+  | Some o' => ~ In p (gh_marked gh1) /\ (if o_reused (heap s o') then (nobj s <= o)%nat else o = o')
+  | None => (nobj s <= o)%nat
+  end.
+Proof.
+  intros s G Hy gh1. destruct (reach valid h) as [HI [K _]].
+  destruct (irun valid h) as [s0 G0] eqn:E. cbn [fst snd] in *.
+  exact (proj2 (proj2 (proj2 (yield_exact_step valid s0 G0 g p o i HI K Hy)))).
+Qed.
+
+(* the same, as recorded in the ghost state of every generator in every history *)
+Theorem iter_yields_exact valid h g :
+  let gh := snd (irun valid h) g in
+  StronglySorted Z.gt (map ypid (gh_yields gh)) /\
+  (forall p, In p (gh_repl gh) -> In p (map ypid (gh_yields gh))) /\
+  forall p o i, In (p, o, i) (gh_yields gh) ->
+    In p (gh_list gh) /\
+    match dget p (gh_cache gh) with
+    | Some o' => ~ In p (gh_marked gh) /\ (if zmem p (gh_repl gh) then (gh_heap0 gh <= o)%nat else o = o')
+    | None => (gh_heap0 gh <= o)%nat /\ zmem p (gh_repl gh) = false
+    end /\
+    match gh_attrs gh with
+    | None => True
+    | Some l => attrs_valid valid l = true /\ i = Some (spec_keys valid l)
+    end.
+Proof.
+  intros gh. destruct (iter_yields valid h g) as [Hs Hy]. destruct (reach valid h) as [_ [_ HE]].
+  destruct (HE g) as [Hsub Hex]. fold gh in Hsub, Hex.
+  split; [exact Hs|]. split; [exact Hsub|]. intros p o i Hin.
+  destruct (Hy p o i Hin) as [HL [_ Hat]]. split; [exact HL|]. split; [exact (Hex p o i Hin)|exact Hat].
+Qed.
+
+(* ================================================================================ *)
+(* (3) the PIDs that are passed over *)
+
+(* a PID that was cached and marked as reused when the body was entered is never yielded by that generator *)
+Theorem marked_never_yielded valid h g p :
+  let gh := snd (irun valid h) g in
+  In p (gh_marked gh) -> (exists o, dget p (gh_cache gh) = Some o) -> ~ In p (map ypid (gh_yields gh)).
+Proof.
+  intros gh Hm [o' Hc] Hin. apply in_map_iff in Hin as [[[q o] i] [Hq Hin]]. cbn in Hq. subst q.
+  destruct (proj2 (proj2 (iter_yields_exact valid h g)) p o i Hin) as [_ [Hex _]]. fold gh in Hex.
+  rewrite Hc in Hex. destruct Hex as [Hnm _]. contradiction.
+Qed.
+
+(* a generator entered while PID p has no cache entry: any object it yields for p is new; and if it runs to
+   exhaustion, p (when listed at entry) was yielded or left the table meanwhile *)
+Theorem uncached_fresh valid h g p :
+  let gh := snd (irun valid h) g in
+  dget p (gh_cache gh) = None ->
+  (forall o i, In (p, o, i) (gh_yields gh) -> (gh_heap0 gh <= o)%nat) /\
+  (gh_exhausted gh = true -> In p (gh_list gh) -> In p (map ypid (gh_yields gh)) \/ In p (gh_vanished gh)).
+Proof.
+  intros gh Hc. split.
+  - intros o i Hin. destruct (proj2 (proj2 (iter_yields_exact valid h g)) p o i Hin) as [_ [Hex _]]. fold gh in Hex.
+    rewrite Hc in Hex. exact (proj1 Hex).
+  - intros Hexh HL. destruct (iter_complete valid h g Hexh p HL) as [H|[H|[[o Ho] _]]]; [now left|now right|].
+    fold gh in Ho. congruence.
+Qed.
+
+(* every listed PID of an exhausted generator was yielded or is in the passed-over list; the two are disjoint;
+   a PID passed over while it was in the table was cached at entry and either marked as reused or the
+   attrs request ppid -- the exact class of the known finding *)
+Theorem iter_complete_exact valid h g :
+  let gh := snd (irun valid h) g in
+  (gh_exhausted gh = true -> forall p, In p (gh_list gh) ->
+     In p (map ypid (gh_yields gh)) \/ In p (map fst (gh_passed gh))) /\
+  (forall p b, In (p, b) (gh_passed gh) ->
+     In p (gh_list gh) /\ ~ In p (map ypid (gh_yields gh)) /\
+     (b = true -> (exists o, dget p (gh_cache gh) = Some o) /\
+                  (In p (gh_marked gh) \/ req_ppid valid (gh_attrs gh) = true))).
+Proof.
+  intros gh. destruct (reach3 valid h g) as [[Hpass [[_ Hcov] _]] _]. fold gh in Hpass, Hcov.
+  split; [exact Hcov|]. intros p b Hin. destruct (Hpass p b Hin) as [H1 [H2 [_ H4]]]. auto.
+Qed.
+
+(* decidable exclusion: nobody was passed over while in the table *)
+Corollary iter_complete_decidable valid h g :
+  let gh := snd (irun valid h) g in
+  gh_exhausted gh = true -> forallb (fun qb => negb (snd qb)) (gh_passed gh) = true ->
+  forall p, In p (gh_list gh) ->
+    In p (map ypid (gh_yields gh)) \/ In (p, false) (gh_passed gh).
+Proof.
+  intros gh Hex Hall p HL. destruct (proj1 (iter_complete_exact valid h g) Hex p HL) as [H|H]; [now left|].
+  right. apply in_map_iff in H as [[q b] [Hq Hin]]. cbn in Hq. subst q.
+  rewrite forallb_forall in Hall. specialize (Hall _ Hin). cbn in Hall. destruct b; [discriminate|exact Hin].
+Qed.
+
+(* ... and its exact complement: whoever was passed over while in the table was listed at entry and is never yielded *)
+Corollary passed_alive_not_yielded valid h g p :
+  let gh := snd (irun valid h) g in
+  In (p, true) (gh_passed gh) -> In p (gh_list gh) /\ ~ In p (map ypid (gh_yields gh)).
+Proof.
+  intros gh Hin. destruct (proj2 (iter_complete_exact valid h g) p true Hin) as [H1 [H2 _]]. now split.
+Qed.
+
+(* when does as_dict on a cached object of a PID that IS in the table raise NoSuchProcess (so that the PID
+   is dropped): exactly when ppid is requested and the object does not denote the process that has the PID *)
+Theorem as_dict_nsp_exact t valid ru pid ob l k :
+  attrs_valid valid l = true -> find_proc t pid = Some k ->
+  (fst (fst (as_dict t valid ru pid ob l)) = Exc NoSuchProcess <->
+   req_ppid valid (Some l) = true /\ (o_gone ob = true \/ o_reused ob = true \/ k_start k <> o_start ob)).
+Proof.
+  intros Hv Hf. unfold as_dict, req_ppid. rewrite existsb_invalid, Hv. cbn [negb].
+  assert (Ha : alive t pid = true) by (unfold alive; now rewrite Hf). rewrite Ha. cbn [negb]. rewrite andb_false_r.
+  destruct (zmem PPID _); [|cbn; split; [discriminate|intros [H _]; discriminate]].
+  unfold is_running_obj. rewrite Hf.
+  destruct (o_gone ob) eqn:Eg; cbn [orb]; [cbn; split; [auto|reflexivity]|].
+  destruct (o_reused ob) eqn:Er; [cbn; split; [auto|reflexivity]|].
+  destruct (k_start k =? o_start ob) eqn:Es; cbn [fst].
+  - apply Z.eqb_eq in Es. split; [discriminate|]. intros [_ [H|[H|H]]]; congruence.
+  - apply Z.eqb_neq in Es. split; [auto|reflexivity].
+Qed.
+
+(* ================================================================================ *)
+(* (1) object identity across successive iterations *)
+Definition quietb (valid : list Z) (s : st) (e : ev) : bool :=
+  match e with
+  | CacheClear => false
+  | IterClose g => negb (is_run (gens s g))
+  | IterNext g =>
+    match gens s g with
+    | GDone => true
+    | _ => match snd (step valid s e) with OYield _ _ _ => true | _ => false end
+    end
+  | _ => true
+  end.
+Fixpoint quiet_run (valid : list Z) (s : st) (h : list ev) : bool :=
+  match h with [] => true | e :: r => quietb valid s e && quiet_run valid (fst (step valid s e)) r end.
+
+
+Lemma quiet_pmap valid s e : quietb valid s e = true -> pmap (fst (step valid s e)) = pmap s.
+Proof.
+  intros Hq. pose proof (pmap_frame valid s e) as F. destruct e; try exact F; cbn [quietb] in Hq; try discriminate.
+  - (* IterNext *)
+    cbn [step]. destruct (Nat.leb (ngen s) g); [reflexivity|].
+    destruct (gens s g) as [a|a pm rest|] eqn:Eg; [| |reflexivity].
+    + cbn [step] in Hq. destruct (Nat.leb (ngen s) g); [discriminate|]. rewrite Eg in Hq.
+      destruct (gen_start _ _ _) as [[[pm ls] low]|e|]; [|discriminate|discriminate].
+      pose proof (run_loop_facts valid (mk s (tbl s) (pmap s) [] (Some low) (heap s) (nobj s) (gens s) (ngen s)) g a pm ls) as R.
+      cbn zeta in R. destruct R as [_ [_ [_ [_ [_ Fm]]]]].
+      destruct (gen_loop _ _ _ _ _); destruct Fm as [Fp [_ Fo]]; rewrite Fo in Hq; try discriminate. exact Fp.
+    + cbn [step] in Hq. destruct (Nat.leb (ngen s) g); [discriminate|]. rewrite Eg in Hq.
+      pose proof (run_loop_facts valid s g a pm rest) as R. cbn zeta in R. destruct R as [_ [_ [_ [_ [_ Fm]]]]].
+      destruct (gen_loop _ _ _ _ _); destruct Fm as [Fp [_ Fo]]; rewrite Fo in Hq; try discriminate. exact Fp.
+  - (* IterClose *)
+    cbn [step]. destruct (Nat.leb (ngen s) g); [reflexivity|]. destruct (gens s g); [reflexivity|discriminate|reflexivity].
+Qed.
+
+Lemma quiet_run_pmap valid h : forall s, quiet_run valid s h = true -> pmap (runs valid s h) = pmap s.
+Proof.
+  induction h as [|e h IH]; intros s Hq; [reflexivity|]. cbn [quiet_run] in Hq. apply andb_true_iff in Hq as [H1 H2].
+  cbn [runs fold_left]. fold (runs valid (fst (step valid s e)) h). rewrite (IH _ H2). now apply quiet_pmap.
+Qed.
+
+(* the table shows PID p with start ticks st before every event of h (and at the end) *)
+Definition steadyb (p st : Z) (s : Model.st) : bool :=
+  match find_proc (tbl s) p with Some k => k_start k =? st | None => false end.
+Fixpoint steady_run (valid : list Z) (p st : Z) (s : Model.st) (h : list ev) : bool :=
+  steadyb p st s && match h with [] => true | e :: r => steady_run valid p st (fst (step valid s e)) r end.
+
+Lemma keep_run valid x0 p0 st0 h : forall s,
+  Kpid s -> kept x0 p0 st0 (heap s) (nobj s) -> steady_run valid p0 st0 s h = true ->
+  kept x0 p0 st0 (heap (runs valid s h)) (nobj (runs valid s h)).
+Proof.
+  induction h as [|e h IH]; intros s K Hk Hs; [exact Hk|].
+  cbn [steady_run] in Hs. apply andb_true_iff in Hs as [H1 H2]. unfold steadyb in H1.
+  destruct (find_proc (tbl s) p0) as [k|] eqn:Ef; [|discriminate]. apply Z.eqb_eq in H1.
+  cbn [runs fold_left]. fold (runs valid (fst (step valid s e)) h). apply IH; [apply (Kstep valid s e K)| |exact H2].
+  exact (keep_step valid x0 p0 st0 k s e K Ef H1 Hk).
+Qed.
+
+Lemma irun_app valid h h' :
+  irun valid (h ++ h') = fold_left (fun sg e => fst (istep valid sg e)) h' (irun valid h).
+Proof. unfold irun. apply fold_left_app. Qed.
+
+Lemma irun_app_fst valid h h' : fst (irun valid (h ++ h')) = runs valid (fst (irun valid h)) h'.
+Proof. rewrite irun_app. apply irun_fst_fold. Qed.
+
+Lemma ngen_mono valid s e : (ngen s <= ngen (fst (step valid s e)))%nat.
+Proof.
+  destruct e; cbn [step]; try (cbn; lia).
+  - destruct (_ && _); cbn; lia.
+  - destruct (_ && _); cbn; lia.
+  - destruct (pids_sorted _) as [[l low]| |]; cbn; lia.
+  - destruct (n <? 0); [cbn; lia|]. destruct (n =? 0); [|cbn; lia]. destruct (pids_sorted _) as [[l low]| |]; cbn; lia.
+  - destruct (Nat.leb (ngen s) g); [cbn; lia|]. destruct (gens s g) as [a|a pm rest|]; [| |cbn; lia].
+    + destruct (gen_start _ _ _) as [[[pm ls] low]|e|]; [|cbn; lia|cbn; lia].
+      pose proof (run_loop_facts valid (mk s (tbl s) (pmap s) [] (Some low) (heap s) (nobj s) (gens s) (ngen s)) g a pm ls) as R.
+      cbn zeta in R. destruct R as [_ [_ [_ [_ [Fg _]]]]]. rewrite Fg. cbn. lia.
+    + pose proof (run_loop_facts valid s g a pm rest) as R. cbn zeta in R. destruct R as [_ [_ [_ [_ [Fg _]]]]]. rewrite Fg. cbn; lia.
+  - destruct (Nat.leb (ngen s) g); [cbn; lia|]. destruct (gens s g); cbn; lia.
+  - destruct (Nat.leb (nobj s) o); [cbn; lia|]. destruct (is_running_obj _ _ _ _) as [[r ob'] ru']. cbn. lia.
+Qed.
+
+(* once a generator's body was entered, the ghost's record of that moment never changes *)
+Lemma started_stable s e o G g :
+  (g < ngen s)%nat -> gh_started (G g) = true ->
+  gh_started (gupd s e o G g) = true /\ gh_cache (gupd s e o G g) = gh_cache (G g)
+  /\ gh_marked (gupd s e o G g) = gh_marked (G g).
+Proof.
+  intros Hg Hs. destruct e; cbn [gupd]; auto.
+  - destruct (alive (tbl s) pid); [|auto]. unfold gh_vanish. destruct (_ && _); auto.
+  - unfold gset. destruct (Nat.eqb g (ngen s)) eqn:E; [apply Nat.eqb_eq in E; lia|auto].
+  - destruct (Nat.leb (ngen s) g0); [auto|]. destruct (gh_done (G g0)); [auto|].
+    unfold gset. destruct (Nat.eqb g g0) eqn:E; [|auto]. apply Nat.eqb_eq in E. subst g0. rewrite Hs.
+    destruct o; cbn [gh_after gh_push gh_finish gh_started gh_cache gh_marked]; auto.
+  - destruct (Nat.leb (ngen s) g0); [auto|]. destruct (gh_done (G g0)); [auto|].
+    unfold gset. destruct (Nat.eqb g g0) eqn:E; [|auto]. apply Nat.eqb_eq in E. subst g0. cbn. auto.
+Qed.
+
+Lemma started_fold valid h : forall (sg : Model.st * ghosts) g,
+  (g < ngen (fst sg))%nat -> gh_started (snd sg g) = true ->
+  let sg' := fold_left (fun sg e => fst (istep valid sg e)) h sg in
+  gh_started (snd sg' g) = true /\ gh_cache (snd sg' g) = gh_cache (snd sg g) /\ gh_marked (snd sg' g) = gh_marked (snd sg g).
+Proof.
+  induction h as [|e h IH]; intros sg g Hg Hs; [cbn; auto|]. cbn [fold_left].
+  assert (E : fst (istep valid sg e) = (fst (step valid (fst sg) e), gupd (fst sg) e (snd (step valid (fst sg) e)) (snd sg))).
+  { unfold istep. destruct (step valid (fst sg) e); reflexivity. }
+  destruct (started_stable (fst sg) e (snd (step valid (fst sg) e)) (snd sg) g Hg Hs) as [A [B C]].
+  specialize (IH (fst (istep valid sg e)) g). rewrite E in *. cbn [fst snd] in *.
+  destruct (IH ltac:(pose proof (ngen_mono valid (fst sg) e); lia) A) as [A' [B' C']].
+  split; [exact A'|]. split; congruence.
+Qed.
+
+Definition is_freshb (g : gen) : bool := match g with GFresh _ => true | _ => false end.
+
+(* PID p was yielded as object x by generator g1, which now runs to exhaustion (s1 = the state right after).
+   hq: no cache_clear() and no generator finishing; then g2's body is entered (p not marked at that moment);
+   h3: anything at all.  If the table shows p with x's start ticks all the way (and x carried no flag at s1),
+   then the next() of g2 that yields p yields that very x. *)
+Theorem same_object_next_iteration valid h0 g1 p x i1 hq h3 g2 o i :
+  let sg0 := irun valid h0 in
+  let sg1 := irun valid (h0 ++ [IterNext g1]) in
+  let s1 := fst sg1 in
+  gh_done (snd sg0 g1) = false -> gh_exhausted (snd sg1 g1) = true -> gh_started (snd sg1 g1) = true ->
+  In (p, x, i1) (gh_yields (snd sg1 g1)) ->
+  o_reused (heap s1 x) = false ->
+  quiet_run valid s1 hq = true ->
+  let s2 := runs valid s1 hq in
+  is_freshb (gens s2 g2) = true -> ~ In p (reused s2) ->
+  (h3 = [] \/ exists h3', h3 = IterNext g2 :: h3') ->
+  steady_run valid p (o_start (heap s1 x)) s1 (hq ++ h3) = true ->
+  snd (step valid (runs valid s1 (hq ++ h3)) (IterNext g2)) = OYield p o i ->
+  o = x.
+Proof.
+  intros sg0 sg1 s1 Hd Hex Hst Hyx Hflag Hq s2 Hfresh Hnm Hh3 Hsteady Hy.
+  (* A: the exhaustion installed p -> x *)
+  assert (Hsg1 : sg1 = fst (istep valid sg0 (IterNext g1))).
+  { unfold sg1, sg0. rewrite irun_app. reflexivity. }
+  assert (Hout : snd (istep valid sg0 (IterNext g1)) = OStop).
+  { pose proof (exh_irun valid (h0 ++ [IterNext g1]) g1) as _.
+    unfold sg1 in Hex. rewrite irun_app in Hex. cbn [fold_left] in Hex. fold sg0 in Hex.
+    unfold istep in *. destruct (step valid (fst sg0) (IterNext g1)) as [s' o'] eqn:Es. cbn [fst snd] in *.
+    cbn [gupd] in Hex. destruct (Nat.leb (ngen (fst sg0)) g1); [unfold sg0 in Hd; pose proof (exh_irun valid h0 g1 Hex); congruence|].
+    rewrite Hd in Hex. rewrite gset_same in Hex.
+    destruct o'; cbn [gh_after gh_push gh_finish gh_exhausted] in Hex; try discriminate; try reflexivity.
+    - destruct (gh_started (snd sg0 g1)); [pose proof (exh_irun valid h0 g1 Hex); unfold sg0 in Hd; congruence|discriminate].
+    - destruct (gh_started (snd sg0 g1)); [pose proof (exh_irun valid h0 g1 Hex); unfold sg0 in Hd; congruence|discriminate].
+    - destruct (gh_started (snd sg0 g1)); [pose proof (exh_irun valid h0 g1 Hex); unfold sg0 in Hd; congruence|discriminate].
+    - destruct (gh_started (snd sg0 g1)); [pose proof (exh_irun valid h0 g1 Hex); unfold sg0 in Hd; congruence|discriminate].
+    - destruct (gh_started (snd sg0 g1)); [pose proof (exh_irun valid h0 g1 Hex); unfold sg0 in Hd; congruence|discriminate]. }
+  assert (Hcache1 : dget p (pmap s1) = Some x).
+  { pose proof (finish_installs valid h0 (IterNext g1) g1) as F. cbn zeta in F. fold sg0 in F. rewrite <- Hsg1 in F.
+    assert (Hd1 : gh_done (snd sg1 g1) = true) by exact (exh_irun valid (h0 ++ [IterNext g1]) g1 Hex).
+    destruct (F Hd Hd1 Hst ltac:(rewrite Hout; discriminate) (or_intror Hout)) as [_ [F2 _]].
+    exact (F2 p x i1 Hyx). }
+  (* B: the quiet stretch keeps the cache *)
+  assert (Hcache2 : dget p (pmap s2) = Some x) by (unfold s2; rewrite (quiet_run_pmap valid hq s1 Hq); exact Hcache1).
+  (* C: x is a well-formed token for p, and stays clean *)
+  destruct (reach valid (h0 ++ [IterNext g1])) as [_ [K1 _]]. fold sg1 in K1. fold s1 in K1.
+  destruct (proj1 K1 p x Hcache1) as [Hxn Hxp].
+  assert (Hk1 : kept x p (o_start (heap s1 x)) (heap s1) (nobj s1)) by (repeat split; auto).
+  pose proof (keep_run valid x p _ (hq ++ h3) s1 K1 Hk1 Hsteady) as [_ [_ [_ Hclean]]].
+  (* D: the ghost of g2 at the final next() *)
+  set (hall := (h0 ++ [IterNext g1]) ++ hq ++ h3).
+  destruct (reach valid hall) as [HIf [Kf _]].
+  assert (Efst : fst (irun valid hall) = runs valid s1 (hq ++ h3)) by (unfold hall; now rewrite irun_app_fst).
+  destruct (irun valid hall) as [sf Gf] eqn:Eall. cbn [fst snd] in *. subst sf.
+  destruct (yield_exact_step valid _ Gf g2 p o i HIf Kf Hy) as [_ [_ [_ Hex2]]].
+  (* the ghost of g2 when the body was entered *)
+  set (mid := (h0 ++ [IterNext g1]) ++ hq).
+  destruct (reach valid mid) as [HI2 [K2 _]].
+  assert (Efst2 : fst (irun valid mid) = s2) by (unfold mid, s2; now rewrite irun_app_fst).
+  destruct (irun valid mid) as [s2' G2] eqn:Emid. cbn [fst snd] in *. subst s2'.
+  pose proof (HI2 g2) as Hg2. cbn [fst snd] in Hg2.
+  destruct (gens s2 g2) as [a2| |] eqn:Eg2; try discriminate. cbn [ginv] in Hg2. destruct Hg2 as [Hns [Hnd _]].
+  assert (Hlt2 : (g2 < ngen s2)%nat).
+  { destruct (Nat.lt_ge_cases g2 (ngen s2)) as [H|H]; [exact H|]. rewrite (proj2 (proj2 K2) g2 H) in Eg2. discriminate. }
+  assert (Hgh : gh_cache (if gh_started (Gf g2) then Gf g2 else gh_enter (runs valid s1 (hq ++ h3)) (Gf g2)) = pmap s2 /\
+                gh_marked (if gh_started (Gf g2) then Gf g2 else gh_enter (runs valid s1 (hq ++ h3)) (Gf g2)) = reused s2).
+  { destruct Hh3 as [->|[h3' ->]].
+    - (* the final next() is the one that enters the body *)
+      rewrite app_nil_r in *. unfold hall in Eall. rewrite app_nil_r in Eall. fold mid in Eall. rewrite Emid in Eall.
+      apply (f_equal snd) in Eall. cbn [snd] in Eall. subst Gf. rewrite Hns. fold s2. cbn [gh_enter gh_cache gh_marked]. now split.
+    - (* the body was entered at the first event of h3 *)
+      assert (Eall2 : (s1, Gf) = (s1, Gf)) by reflexivity.
+      unfold hall in Eall. rewrite app_assoc in Eall. fold mid in Eall. rewrite irun_app in Eall. rewrite Emid in Eall.
+      cbn [fold_left] in Eall.
+      set (sgE := fst (istep valid (s2, G2) (IterNext g2))) in Eall.
+      assert (HE : gh_started (snd sgE g2) = true /\ gh_cache (snd sgE g2) = pmap s2 /\ gh_marked (snd sgE g2) = reused s2
+                   /\ (g2 < ngen (fst sgE))%nat).
+      { unfold sgE, istep. cbn [fst snd]. destruct (step valid s2 (IterNext g2)) as [s' o'] eqn:Es. cbn [fst snd gupd].
+        assert (Hl : Nat.leb (ngen s2) g2 = false) by (apply Nat.leb_gt; exact Hlt2). rewrite Hl, Hnd, Hns, gset_same.
+        assert (Hn' : (g2 < ngen s')%nat).
+        { pose proof (ngen_mono valid s2 (IterNext g2)) as M. rewrite Es in M. cbn [fst] in M. lia. }
+        destruct o'; cbn [gh_after gh_push gh_finish gh_enter gh_started gh_cache gh_marked]; auto. }
+      destruct HE as [E1 [E2 [E3 E4]]].
+      pose proof (started_fold valid h3' sgE g2 E4 E1) as SF. cbn zeta in SF. rewrite Eall in SF. cbn [snd] in SF.
+      destruct SF as [S1 [S2 S3]]. rewrite S1. split; congruence. }
+  destruct Hgh as [Hc Hm]. rewrite Hc in Hex2. rewrite Hm in Hex2. rewrite Hcache2 in Hex2.
+  destruct Hex2 as [_ Hfin]. rewrite Hclean in Hfin. exact Hfin.
+Qed.
+
+(* an entry whose PID had left the listing when a generator was entered is absent from the cache once that
+   generator has finished *)
+Corollary cache_eviction valid h e g p :
+  let sg := irun valid h in
+  let r := istep valid sg e in
+  let gh' := snd (fst r) g in
+  gh_done (snd sg g) = false -> gh_done gh' = true -> gh_started gh' = true ->
+  snd r <> OOom -> (tbl (fst sg) <> [] \/ snd r = OStop) ->
+  ~ In p (gh_list gh') -> dget p (pmap (fst (fst r))) = None.
+Proof.
+  intros sg r gh' H1 H2 H3 H4 H5 Hn.
+  destruct (finish_installs valid h e g H1 H2 H3 H4 H5) as [F1 _].
+  destruct (dget p (pmap (fst (fst r)))) as [o|] eqn:E; [|reflexivity].
+  exfalso. apply Hn. exact (proj1 (F1 p o E)).
+Qed.
+
+(* the hypotheses of same_object_next_iteration are satisfiable, with the body of g2 entered by the final
+   next() (h3 = []) and earlier (h3 = [IterNext 1]) *)
+Definition e2e_h0 : list ev := [Spawn 5 100; Spawn 9 100; IterNew None; IterNext 0; IterNext 0].
+Definition e2e_hq : list ev := [Spawn 7 100; IterNew None; Pids].
+
+Example same_object_ex :
+  let valid := [0; 1; 2] in
+  let sg0 := irun valid e2e_h0 in
+  let sg1 := irun valid (e2e_h0 ++ [IterNext 0]) in
+  let s1 := fst sg1 in
+  let s2 := runs valid s1 e2e_hq in
+  gh_done (snd sg0 0%nat) = false /\ gh_exhausted (snd sg1 0%nat) = true /\ gh_started (snd sg1 0%nat) = true /\
+  In (9, 1%nat, None) (gh_yields (snd sg1 0%nat)) /\ o_reused (heap s1 1%nat) = false /\
+  quiet_run valid s1 e2e_hq = true /\ is_freshb (gens s2 1%nat) = true /\ zmem 9 (reused s2) = false /\
+  steady_run valid 9 (o_start (heap s1 1%nat)) s1 (e2e_hq ++ [IterNext 1; IterNext 1]) = true /\
+  snd (step valid (runs valid s1 (e2e_hq ++ [IterNext 1; IterNext 1])) (IterNext 1)) = OYield 9 1%nat None.
+Proof. vm_compute. repeat split; auto. Qed.
+
+(* without "no generator finishes in between" identity across iterations fails: two overlapping first
+   iterations each make their own object for PID 5; the one finishing last wins the cache *)
+Definition overlap_h0 : list ev :=
+  [Spawn 5 100; IterNew None; IterNew None; IterNext 0; IterNext 1].
+Definition overlap_hq : list ev := [IterNext 0; IterNew None].
+
+Theorem identity_overlap_refuted :
+  exists valid h0 g1 p x i1 hq g2 o i,
+    let sg0 := irun valid h0 in
+    let sg1 := irun valid (h0 ++ [IterNext g1]) in
+    let s1 := fst sg1 in
+    let s2 := runs valid s1 hq in
+    gh_done (snd sg0 g1) = false /\ gh_exhausted (snd sg1 g1) = true /\
+    In (p, x, i1) (gh_yields (snd sg1 g1)) /\ o_reused (heap s1 x) = false /\
+    is_freshb (gens s2 g2) = true /\ zmem p (reused s2) = false /\
+    steady_run valid p (o_start (heap s1 x)) s1 hq = true /\
+    forallb (fun e => match e with CacheClear => false | _ => true end) hq = true /\
+    quiet_run valid s1 hq = false /\
+    snd (step valid s2 (IterNext g2)) = OYield p o i /\ Nat.eqb o x = false.
+Proof.
+  exists [0; 1; 2], overlap_h0, 1%nat, 5, 1%nat, None, overlap_hq, 2%nat, 0%nat, None.
+  vm_compute. repeat split; auto.
+Qed.
